@@ -19,12 +19,12 @@ import (
 // a justified source in the independent record of valid signatures) must hold at every stage.
 
 type c17Links struct {
-	N        int  `json:"n"`     // validators 3..10
-	Epoch    int  `json:"epoch"` // 2..4
-	A        int  `json:"a"`     // signatures on genesis->cp2 carried in the header (validators from the front)
-	B        int  `json:"b"`     // signatures on cp1->cp2 carried in the header (validators from the end)
+	N        int  `json:"n"`         // validators 3..10
+	Epoch    int  `json:"epoch"`     // 2..4
+	A        int  `json:"a"`         // signatures on genesis->cp2 carried in the header (validators from the front)
+	B        int  `json:"b"`         // signatures on cp1->cp2 carried in the header (validators from the end)
 	SkipLast bool `json:"skip_last"` // order of the two links in the header
-	C        int  `json:"c"`        // further validators (after the first A) signing by message
+	C        int  `json:"c"`         // further validators (after the first A) signing by message
 	OnDirect bool `json:"on_direct"` // the messages sign cp1->cp2 (else genesis->cp2)
 	Restart1 bool `json:"restart1"`
 	Restart2 bool `json:"restart2"`
